@@ -6,6 +6,7 @@ import PycsepVerif.Model.ResultJson
     c18_field  <val>           → `<json> <loaded> <safe:0|1>`   json.dump(default=_json_default) then json.load of one field
     c18_td     <val>           → `err` (to_dict raises TypeError) or `<loaded>` of the stored test_distribution
     c18_factory <hex-name>     → hex of the class name built, or `KeyError`
+    c18_loaders <hex-type> <hex-cls> → `<class built by load_evaluation_result or KeyError>;<class built by load_json(cls)>`
     c18_region origins dh mask pts → `i,i,…;j,j,…` exact-lattice indices (n = outside) in the original region and in
                                  the region rebuilt from its dictionary
   Values travel in prefix (Polish) notation, tokens joined by `,`:
@@ -142,6 +143,14 @@ def handle : List String → Option String
   | ["c18_factory", name] => some (match fromHex? name with
       | some n => (match factory n with | some c => toHex c | none => "KeyError")
       | none => "bad-op")
+  | ["c18_loaders", typ, cls] => some (match fromHex? typ, fromHex? cls with
+      | some t, some c =>
+        -- class built by load_evaluation_result (factory on the stored type) ; class built by load_json(cls, …)
+        let j : JResult := { type := t, testDistribution := .null, name := .null, observedStatistic := .null,
+                             quantile := .null, status := .null, obsCatalogRepr := .null, simName := .null,
+                             obsName := .null, minMw := .null }
+        (match load j with | some r => toHex r.cls | none => "KeyError") ++ ";" ++ toHex (loadAs c j).cls
+      | _, _ => "bad-op")
   | ["c18_region", origins, dh, mask, pts] => some (
       match parsePairs? origins, parseRat? dh, parseList? (fun s => s.toNat?.map (· != 0)) mask, parsePairs? pts with
       | some os, some d, some m, some ps =>
